@@ -93,7 +93,7 @@ static htp_status_t htp_connp_req_receiver_send_data(htp_connp_t *connp, int is_
 
     htp_tx_data_t d;
     d.tx = connp->in_tx;
-    d.data = connp->in_current_data + connp->in_current_receiver_offset;
+    d.data = (connp->in_current_data != NULL) ? connp->in_current_data + connp->in_current_receiver_offset : NULL;
     d.len = connp->in_current_read_offset - connp->in_current_receiver_offset;
     d.is_last = is_last;
 
